@@ -56,10 +56,13 @@ class Gen:
       return self.ref()
     flags = list(F)
     if flagged and r.chance(0.15):
-      flags = [r.chance(0.4), r.chance(0.7), r.chance(0.3)]
+      # nested containers are never constructed sealed (the harness has to build flagged nested
+      # containers before their holder, so sealing them would seal offered nodes early); the
+      # top-level container of `new` may be sealed, which seals the whole value
+      flags = [False, r.chance(0.7), r.chance(0.3)]
     n = r.weighted([(2, 0), (4, 1), (4, 2), (2, 3), (1, 4)])
     if flagged and k == 9:
-      return ['o', r.below(2), [flags[0], True, flags[2]],
+      return ['o', r.below(2), [False, True, flags[2]],
               [[r.below(3), self.value(depth - 1, refs, flagged)] for _ in range(min(n, 3))]]
     if k % 2 == 0:
       keys = []
@@ -77,6 +80,9 @@ class Gen:
     for _ in range(20):
       v = self.value(depth, refs, flagged)
       if isinstance(v, list) and v and v[0] in ('d', 'l', 'o'):
+        if flagged and self.r.chance(0.12):
+          fl = v[2] if v[0] == 'o' else v[1]
+          fl[0] = True
         return v
     return ['d', list(F), []]
 
@@ -214,7 +220,8 @@ def exhaustive_small():
 
 def signature(fail):
   op = fail['op']
-  return '%s:%s%s' % (fail['kind'], op['op'], '' if op.get('n', True) else ':n0')
+  return '%s:%s%s%s' % (fail['kind'], op['op'], '' if op.get('n', True) else ':n0',
+                        ':unsafe' if op.get('unsafe') else '')
 
 
 class C01(Prop):
